@@ -40,7 +40,9 @@
 (*   Chan{n,st} OpenDone{n,ok} Held{r} Late{r,n}  environment / no-ops      *)
 (*   Raised{op} Hang{}         the balancer raised into its caller / spun   *)
 (*           (diagnostic no-ops: the rest of the history is still judged)  *)
-(*   Disp{r,n,err,st,fresh,hasU,U}  request r was handed to node n (n = -1: *)
+(*   Tmo{r}                    a request parked behind the balancer's open  *)
+(*           timed out (completed) before it was dispatched                *)
+(*   Disp{r,n,err,st,fresh,hasU,U[,dead]}  r was handed to node n (n = -1:  *)
 (*           it failed at once, err = "nomembers" | "other" | "none");     *)
 (*           U = <<n, st, out>> for every member the balancer is using,    *)
 (*           sampled just before the choice; st = state of n's channel;    *)
@@ -135,7 +137,11 @@ DispCheck(a, ev) ==
   ELSE IF On("C04") /\ ev.n # -1 /\ a.node[ev.n].left THEN "C04.noNewTraffic"
   ELSE "ok"
 
-DispUpd(a, ev) == IF ev.n = -1 THEN a ELSE [a EXCEPT !.node[ev.n].out = @ + 1]
+\* A request that had already completed when it was dispatched (dead = 1: it timed out while
+\* parked behind the balancer's open) is not "dispatched and not yet completed": it never
+\* counts as outstanding, so any load attributed for it breaks C04.conserved.
+IsDead(ev) == "dead" \in DOMAIN ev /\ ev.dead = 1
+DispUpd(a, ev) == IF ev.n = -1 \/ IsDead(ev) THEN a ELSE [a EXCEPT !.node[ev.n].out = @ + 1]
 
 CompCheck(a, ev) ==
   IF ev.n \notin Nodes(a) THEN "harness.compKnownNode"
@@ -195,7 +201,7 @@ ProbeCheck(a, ev) ==
   ELSE "ok"
 
 \* ------------------------------------------------------------------ the machine
-NoOps == {"JoinDone", "Chan", "OpenDone", "Held", "Late", "Raised", "Hang"}
+NoOps == {"JoinDone", "Chan", "OpenDone", "Held", "Late", "Raised", "Hang", "Tmo"}
 
 CheckOf(a, ev) ==
   CASE ev.e = "Join" -> "ok"
